@@ -1,5 +1,350 @@
 //! Store world W1 (E3): the real `gmsol_store::entry` with the native SPL token and associated
-//! token processors in the in-process runtime.
-use mc_core::{Cli, Report};
+//! token processors in the in-process runtime. Accounts of the programs under test are created by
+//! their own instructions; SPL mints/token accounts, the store account (public `Store::init` and
+//! role functions) and custom price feeds are fabricated.
+use anchor_lang::prelude::*;
+use anchor_lang::{Discriminator, InstructionData, ToAccountMetas};
+use gmsol_store::states::{Deposit, Market, Oracle, PriceFeed, Seed, Store, Withdrawal};
+use gmsol_utils::price::feed_price::PriceFeedPrice;
+use gmsol_utils::price::PriceFlag;
+use solana_program::instruction::Instruction;
+use solana_program::program_pack::Pack;
 
-pub fn c32_settlement(_rep: &mut Report, _cli: &Cli) {}
+use crate::svm::{self, addr, meta, process, register, Acc, Db, TxError};
+
+pub fn zc<T: bytemuck::Pod + Discriminator>(v: &T) -> Vec<u8> {
+    let mut d = T::DISCRIMINATOR.to_vec();
+    d.extend_from_slice(bytemuck::bytes_of(v));
+    d
+}
+
+fn token_entry<'a>(p: &'a Pubkey, a: &'a [AccountInfo<'a>], d: &'a [u8]) -> solana_program::entrypoint::ProgramResult {
+    spl_token::processor::Processor::process(p, a, d)
+}
+fn ata_entry<'a>(p: &'a Pubkey, a: &'a [AccountInfo<'a>], d: &'a [u8]) -> solana_program::entrypoint::ProgramResult {
+    spl_associated_token_account::processor::process_instruction(p, a, d)
+}
+
+pub fn sys() -> Pubkey {
+    solana_program::system_program::ID
+}
+
+pub fn mint_acc(decimals: u8, supply: u64, authority: Option<Pubkey>) -> Acc {
+    let m = spl_token::state::Mint { mint_authority: authority.into(), supply, decimals, is_initialized: true, freeze_authority: None.into() };
+    let mut data = vec![0u8; spl_token::state::Mint::LEN];
+    m.pack_into_slice(&mut data);
+    Acc::new(1_461_600, spl_token::ID, data)
+}
+pub fn token_acc(mint: Pubkey, owner: Pubkey, amount: u64) -> Acc {
+    let a = spl_token::state::Account { mint, owner, amount, delegate: None.into(), state: spl_token::state::AccountState::Initialized, is_native: None.into(), delegated_amount: 0, close_authority: None.into() };
+    let mut data = vec![0u8; spl_token::state::Account::LEN];
+    a.pack_into_slice(&mut data);
+    Acc::new(2_039_280, spl_token::ID, data)
+}
+pub fn token_amount(db: &Db, k: &Pubkey) -> u64 {
+    db.accounts.get(k).and_then(|a| spl_token::state::Account::unpack(&a.data).ok()).map(|a| a.amount).unwrap_or(0)
+}
+pub fn mint_supply(db: &Db, k: &Pubkey) -> u64 {
+    db.accounts.get(k).and_then(|a| spl_token::state::Mint::unpack(&a.data).ok()).map(|a| a.supply).unwrap_or(0)
+}
+pub fn ata(owner: &Pubkey, mint: &Pubkey) -> Pubkey {
+    spl_associated_token_account::get_associated_token_address(owner, mint)
+}
+
+#[derive(Clone)]
+pub struct MarketKeys {
+    pub market_token: Pubkey,
+    pub market: Pubkey,
+    pub index: Pubkey,
+    pub long: Pubkey,
+    pub short: Pubkey,
+}
+
+#[derive(Clone)]
+pub struct W {
+    pub pid: Pubkey,
+    pub store: Pubkey,
+    pub store_wallet: Pubkey,
+    pub token_map: Pubkey,
+    pub oracle: Pubkey,
+    pub admin: Pubkey,
+    pub keeper: Pubkey,
+    pub config_keeper: Pubkey,
+    pub user: Pubkey,
+    pub user2: Pubkey,
+    pub stranger: Pubkey,
+    pub a: Pubkey,
+    pub b: Pubkey,
+    pub feed_id_a: Pubkey,
+    pub feed_id_b: Pubkey,
+    pub feed_a: Pubkey,
+    pub feed_b: Pubkey,
+    pub m1: MarketKeys,
+    pub m2: MarketKeys,
+    pub event_authority: Pubkey,
+}
+
+pub const KEEPER_ROLES: [&str; 5] = ["MARKET_KEEPER", "ORDER_KEEPER", "ORACLE_CONTROLLER", "PRICE_KEEPER", "FEATURE_KEEPER"];
+
+pub fn ix(pid: Pubkey, accounts: impl ToAccountMetas, data: impl InstructionData) -> Instruction {
+    Instruction { program_id: pid, accounts: accounts.to_account_metas(None), data: data.data() }
+}
+
+/// custom price feed account (owner: store program) with the given content
+pub fn feed_account(store: &Pubkey, token: &Pubkey, feed_id: &Pubkey, provider: u8, ts: i64, slot: u64, min: u128, price: u128, max: u128, decimals: u8, open: bool) -> Acc {
+    let mut data = vec![0u8; 8 + std::mem::size_of::<PriceFeed>()];
+    data[..8].copy_from_slice(PriceFeed::DISCRIMINATOR);
+    let body = &mut data[8..];
+    body[0] = 255; // bump
+    body[1] = provider;
+    body[16..48].copy_from_slice(store.as_ref());
+    body[80..112].copy_from_slice(token.as_ref());
+    body[112..144].copy_from_slice(feed_id.as_ref());
+    body[144..152].copy_from_slice(&slot.to_le_bytes());
+    body[152..160].copy_from_slice(&ts.to_le_bytes());
+    let mut p = PriceFeedPrice::new(decimals, ts, price, min, max, 0);
+    p.set_flag(PriceFlag::Open, open);
+    body[160..160 + std::mem::size_of::<PriceFeedPrice>()].copy_from_slice(bytemuck::bytes_of(&p));
+    Acc::new(10_000_000, gmsol_store::ID, data)
+}
+
+pub fn build() -> (Db, W) {
+    svm::install();
+    svm::set_clock(1_000, 10);
+    let pid = gmsol_store::ID;
+    let mut db = Db::default();
+    register(pid, gmsol_store::entry, &mut db);
+    register(spl_token::ID, token_entry, &mut db);
+    register(spl_associated_token_account::ID, ata_entry, &mut db);
+    let mut sysacc = Acc::program();
+    sysacc.owner = Pubkey::default();
+    db.set(sys(), sysacc);
+    let [admin, keeper, config_keeper, user, user2, stranger] = ["w-admin", "w-keeper", "w-config-keeper", "w-user", "w-user2", "w-stranger"].map(addr);
+    for k in [admin, keeper, config_keeper, user, user2, stranger] {
+        db.set(k, Acc::wallet(100_000_000_000));
+    }
+    let (store_key, bump) = Pubkey::find_program_address(&[Store::SEED, &gmsol_utils::to_seed("")], &pid);
+    let mut store: Store = bytemuck::Zeroable::zeroed();
+    store.init(admin, "", bump, admin, admin).expect("store init");
+    for role in KEEPER_ROLES {
+        store.enable_role(role).expect("enable role");
+        store.grant(&keeper, role).expect("grant role");
+    }
+    store.enable_role("MARKET_CONFIG_KEEPER").expect("enable role");
+    store.grant(&config_keeper, "MARKET_CONFIG_KEEPER").expect("grant role");
+    db.set(store_key, Acc::new(1_000_000_000, pid, zc(&store)));
+    let store_wallet = Pubkey::find_program_address(&[Store::WALLET_SEED, store_key.as_ref()], &pid).0;
+    let event_authority = Pubkey::find_program_address(&[b"__event_authority"], &pid).0;
+
+    let run = |db: &mut Db, name: &str, i: Instruction, signers: &[Pubkey]| {
+        process(db, &i, signers).unwrap_or_else(|e| panic!("world setup: {name} failed: {e:?}"));
+    };
+    // token map
+    let token_map = addr("w-token-map");
+    run(&mut db, "initialize_token_map", ix(pid, gmsol_store::accounts::InitializeTokenMap { payer: keeper, store: store_key, token_map, system_program: sys() }, gmsol_store::instruction::InitializeTokenMap {}), &[keeper, token_map]);
+    run(&mut db, "set_token_map", ix(pid, gmsol_store::accounts::SetTokenMap { authority: keeper, store: store_key, token_map }, gmsol_store::instruction::SetTokenMap {}), &[keeper]);
+    let (a, b) = (addr("w-token-a"), addr("w-token-b"));
+    db.set(a, mint_acc(6, 1_000_000_000_000_000, None));
+    db.set(b, mint_acc(6, 1_000_000_000_000_000, None));
+    let (feed_id_a, feed_id_b) = (addr("w-feed-id-a"), addr("w-feed-id-b"));
+    for (name, token, feed_id) in [("A", a, feed_id_a), ("B", b, feed_id_b)] {
+        let mut builder = gmsol_utils::token_config::UpdateTokenConfigParams::default();
+        builder.feeds[0] = feed_id;
+        builder.expected_provider = Some(0);
+        builder.heartbeat_duration = 60;
+        builder.precision = 4;
+        run(&mut db, "push_to_token_map", ix(pid, gmsol_store::accounts::PushToTokenMap { authority: keeper, store: store_key, token_map, token, system_program: sys() }, gmsol_store::instruction::PushToTokenMap { name: name.into(), builder, enable: true, new: true }), &[keeper]);
+    }
+    let vault = |m: &Pubkey| Pubkey::find_program_address(&[b"market_vault", store_key.as_ref(), m.as_ref()], &pid).0;
+    for m in [a, b] {
+        run(&mut db, "initialize_market_vault", ix(pid, gmsol_store::accounts::InitializeMarketVault { authority: keeper, store: store_key, mint: m, vault: vault(&m), system_program: sys(), token_program: spl_token::ID }, gmsol_store::instruction::InitializeMarketVault {}), &[keeper]);
+    }
+    // two markets sharing both vaults: index A and index B over the same (A, B) pool tokens
+    let mut mk = |index: Pubkey, name: &str| {
+        let market_token = Pubkey::find_program_address(&[b"market_token_mint", store_key.as_ref(), index.as_ref(), a.as_ref(), b.as_ref()], &pid).0;
+        let market = Pubkey::find_program_address(&[Market::SEED, store_key.as_ref(), market_token.as_ref()], &pid).0;
+        run(
+            &mut db,
+            "initialize_market",
+            ix(pid, gmsol_store::accounts::InitializeMarket { authority: keeper, store: store_key, market_token_mint: market_token, long_token_mint: a, short_token_mint: b, market, token_map, long_token_vault: vault(&a), short_token_vault: vault(&b), system_program: sys(), token_program: spl_token::ID }, gmsol_store::instruction::InitializeMarket { index_token_mint: index, name: name.into(), enable: true }),
+            &[keeper],
+        );
+        // withdrawals move market tokens through their own vault
+        run(&mut db, "initialize_market_vault(market token)", ix(pid, gmsol_store::accounts::InitializeMarketVault { authority: keeper, store: store_key, mint: market_token, vault: vault(&market_token), system_program: sys(), token_program: spl_token::ID }, gmsol_store::instruction::InitializeMarketVault {}), &[keeper]);
+        MarketKeys { market_token, market, index, long: a, short: b }
+    };
+    let m1 = mk(a, "A/USD[A-B]");
+    let m2 = mk(b, "B/USD[A-B]");
+    // oracle (zeroed account pre-created by the client, as on chain)
+    let oracle = addr("w-oracle");
+    db.set(oracle, Acc::new(1_000_000_000, pid, vec![0u8; 8 + std::mem::size_of::<Oracle>()]));
+    run(&mut db, "initialize_oracle", ix(pid, gmsol_store::accounts::InitializeOracle { payer: keeper, authority: keeper, store: store_key, oracle, system_program: sys() }, gmsol_store::instruction::InitializeOracle {}), &[keeper]);
+    let (feed_a, feed_b) = (addr("w-feed-a"), addr("w-feed-b"));
+    let w = W { pid, store: store_key, store_wallet, token_map, oracle, admin, keeper, config_keeper, user, user2, stranger, a, b, feed_id_a, feed_id_b, feed_a, feed_b, m1, m2, event_authority };
+    w.set_feeds(&mut db, 1_000, (12_0000_0000, 12_0000_0000), (1_0000_0000, 1_0000_0000));
+    // user funds
+    for u in [user, user2] {
+        db.set(ata(&u, &a), token_acc(a, u, 1_000_000_000_000));
+        db.set(ata(&u, &b), token_acc(b, u, 1_000_000_000_000));
+    }
+    (db, w)
+}
+
+impl W {
+    pub fn vault(&self, mint: &Pubkey) -> Pubkey {
+        Pubkey::find_program_address(&[b"market_vault", self.store.as_ref(), mint.as_ref()], &self.pid).0
+    }
+
+    /// (re)publish both custom feeds with the given timestamp and (min, max) prices (8 decimals)
+    pub fn set_feeds(&self, db: &mut Db, ts: i64, pa: (u128, u128), pb: (u128, u128)) {
+        self.set_feeds_at(db, ts, ts.max(0) as u64 / 100, pa, pb)
+    }
+
+    /// the slot of the world's clock is `ts / 100` by convention (see `set_time`)
+    pub fn set_feeds_at(&self, db: &mut Db, ts: i64, slot: u64, pa: (u128, u128), pb: (u128, u128)) {
+        db.set(self.feed_a, feed_account(&self.store, &self.a, &self.feed_id_a, 0, ts, slot, pa.0, (pa.0 + pa.1) / 2, pa.1, 8, true));
+        db.set(self.feed_b, feed_account(&self.store, &self.b, &self.feed_id_b, 0, ts, slot, pb.0, (pb.0 + pb.1) / 2, pb.1, 8, true));
+    }
+
+    /// set the runtime clock; slot = ts / 100
+    pub fn set_time(ts: i64) {
+        svm::set_clock(ts, ts.max(0) as u64 / 100);
+    }
+
+    pub fn market(&self, db: &Db, m: &MarketKeys) -> Market {
+        db.pod::<Market>(&m.market).expect("market account")
+    }
+
+    fn feeds_sorted(&self) -> Vec<AccountMeta> {
+        let mut toks = vec![(self.a, self.feed_a), (self.b, self.feed_b)];
+        toks.sort();
+        toks.into_iter().map(|(_, f)| meta(f, false, false)).collect()
+    }
+
+    fn ensure_ata(&self, db: &mut Db, owner: &Pubkey, mint: &Pubkey) -> Pubkey {
+        let k = ata(owner, mint);
+        if !db.exists(&k) {
+            db.set(k, token_acc(*mint, *owner, 0));
+        }
+        k
+    }
+
+    // ------------------------------------------------------------------ deposits
+    pub fn deposit_pda(&self, owner: &Pubkey, nonce: &[u8; 32]) -> Pubkey {
+        Pubkey::find_program_address(&[Deposit::SEED, self.store.as_ref(), owner.as_ref(), nonce], &self.pid).0
+    }
+
+    #[allow(clippy::too_many_arguments)]
+    pub fn create_deposit(&self, db: &mut Db, m: &MarketKeys, owner: Pubkey, nonce: [u8; 32], long_amount: u64, short_amount: u64, min_out: u64, signer: Pubkey) -> std::result::Result<(), TxError> {
+        let deposit = self.deposit_pda(&owner, &nonce);
+        // client-side preparation: escrow ATAs and the owner's market token ATA
+        for (o, mint) in [(deposit, m.market_token), (deposit, m.long), (deposit, m.short), (owner, m.market_token)] {
+            self.ensure_ata(db, &o, &mint);
+        }
+        let accounts = gmsol_store::accounts::CreateDeposit {
+            owner, receiver: owner, store: self.store, market: m.market, deposit, market_token: m.market_token,
+            initial_long_token: Some(m.long), initial_short_token: Some(m.short),
+            market_token_escrow: ata(&deposit, &m.market_token), initial_long_token_escrow: Some(ata(&deposit, &m.long)), initial_short_token_escrow: Some(ata(&deposit, &m.short)),
+            market_token_ata: ata(&owner, &m.market_token), initial_long_token_source: Some(ata(&owner, &m.long)), initial_short_token_source: Some(ata(&owner, &m.short)),
+            system_program: sys(), token_program: spl_token::ID, associated_token_program: spl_associated_token_account::ID,
+        };
+        let params = gmsol_store::ops::deposit::CreateDepositParams { execution_lamports: 5_000_000, long_token_swap_length: 0, short_token_swap_length: 0, initial_long_token_amount: long_amount, initial_short_token_amount: short_amount, min_market_token_amount: min_out, should_unwrap_native_token: false };
+        process(db, &ix(self.pid, accounts, gmsol_store::instruction::CreateDeposit { nonce, params }), &[signer])
+    }
+
+    pub fn execute_deposit(&self, db: &mut Db, m: &MarketKeys, owner: Pubkey, nonce: [u8; 32], signer: Pubkey, throw_on_execution_error: bool) -> std::result::Result<(), TxError> {
+        let deposit = self.deposit_pda(&owner, &nonce);
+        let accounts = gmsol_store::accounts::ExecuteDeposit {
+            authority: signer, store: self.store, token_map: self.token_map, oracle: self.oracle, market: m.market, deposit, market_token: m.market_token,
+            initial_long_token: Some(m.long), initial_short_token: Some(m.short),
+            market_token_escrow: ata(&deposit, &m.market_token), initial_long_token_escrow: Some(ata(&deposit, &m.long)), initial_short_token_escrow: Some(ata(&deposit, &m.short)),
+            initial_long_token_vault: Some(self.vault(&m.long)), initial_short_token_vault: Some(self.vault(&m.short)),
+            token_program: spl_token::ID, system_program: sys(), chainlink_program: None, event_authority: self.event_authority, program: self.pid,
+        };
+        let mut i = ix(self.pid, accounts, gmsol_store::instruction::ExecuteDeposit { execution_fee: 5_000, throw_on_execution_error });
+        i.accounts.extend(self.feeds_sorted());
+        process(db, &i, &[signer])
+    }
+
+    pub fn close_deposit(&self, db: &mut Db, m: &MarketKeys, owner: Pubkey, nonce: [u8; 32], signer: Pubkey) -> std::result::Result<(), TxError> {
+        let deposit = self.deposit_pda(&owner, &nonce);
+        let accounts = gmsol_store::accounts::CloseDeposit {
+            executor: signer, store: self.store, store_wallet: self.store_wallet, owner, receiver: owner, market_token: m.market_token, initial_long_token: Some(m.long), initial_short_token: Some(m.short), deposit,
+            market_token_escrow: ata(&deposit, &m.market_token), initial_long_token_escrow: Some(ata(&deposit, &m.long)), initial_short_token_escrow: Some(ata(&deposit, &m.short)),
+            market_token_ata: ata(&owner, &m.market_token), initial_long_token_ata: Some(ata(&owner, &m.long)), initial_short_token_ata: Some(ata(&owner, &m.short)),
+            system_program: sys(), token_program: spl_token::ID, associated_token_program: spl_associated_token_account::ID, event_authority: self.event_authority, program: self.pid,
+        };
+        process(db, &ix(self.pid, accounts, gmsol_store::instruction::CloseDeposit { reason: "mc".into() }), &[signer])
+    }
+
+    // ------------------------------------------------------------------ withdrawals
+    pub fn withdrawal_pda(&self, owner: &Pubkey, nonce: &[u8; 32]) -> Pubkey {
+        Pubkey::find_program_address(&[Withdrawal::SEED, self.store.as_ref(), owner.as_ref(), nonce], &self.pid).0
+    }
+
+    #[allow(clippy::too_many_arguments)]
+    pub fn create_withdrawal(&self, db: &mut Db, m: &MarketKeys, owner: Pubkey, nonce: [u8; 32], amount: u64, min_long: u64, min_short: u64, signer: Pubkey) -> std::result::Result<(), TxError> {
+        let wd = self.withdrawal_pda(&owner, &nonce);
+        for (o, mint) in [(wd, m.market_token), (wd, m.long), (wd, m.short), (owner, m.market_token)] {
+            self.ensure_ata(db, &o, &mint);
+        }
+        let accounts = gmsol_store::accounts::CreateWithdrawal {
+            owner, receiver: owner, store: self.store, market: m.market, withdrawal: wd, market_token: m.market_token, final_long_token: m.long, final_short_token: m.short,
+            market_token_escrow: ata(&wd, &m.market_token), final_long_token_escrow: ata(&wd, &m.long), final_short_token_escrow: ata(&wd, &m.short), market_token_source: ata(&owner, &m.market_token),
+            system_program: sys(), token_program: spl_token::ID, associated_token_program: spl_associated_token_account::ID,
+        };
+        let params = gmsol_store::ops::withdrawal::CreateWithdrawalParams { execution_lamports: 5_000_000, long_token_swap_path_length: 0, short_token_swap_path_length: 0, market_token_amount: amount, min_long_token_amount: min_long, min_short_token_amount: min_short, should_unwrap_native_token: false };
+        process(db, &ix(self.pid, accounts, gmsol_store::instruction::CreateWithdrawal { nonce, params }), &[signer])
+    }
+
+    pub fn execute_withdrawal(&self, db: &mut Db, m: &MarketKeys, owner: Pubkey, nonce: [u8; 32], signer: Pubkey, throw_on_execution_error: bool) -> std::result::Result<(), TxError> {
+        let wd = self.withdrawal_pda(&owner, &nonce);
+        let market_token_vault = Pubkey::find_program_address(&[b"market_vault", self.store.as_ref(), m.market_token.as_ref()], &self.pid).0;
+        let accounts = gmsol_store::accounts::ExecuteWithdrawal {
+            authority: signer, store: self.store, token_map: self.token_map, oracle: self.oracle, market: m.market, withdrawal: wd, market_token: m.market_token, final_long_token: m.long, final_short_token: m.short,
+            market_token_escrow: ata(&wd, &m.market_token), final_long_token_escrow: ata(&wd, &m.long), final_short_token_escrow: ata(&wd, &m.short),
+            market_token_vault, final_long_token_vault: self.vault(&m.long), final_short_token_vault: self.vault(&m.short),
+            token_program: spl_token::ID, system_program: sys(), chainlink_program: None, event_authority: self.event_authority, program: self.pid,
+        };
+        let mut i = ix(self.pid, accounts, gmsol_store::instruction::ExecuteWithdrawal { execution_fee: 5_000, throw_on_execution_error });
+        i.accounts.extend(self.feeds_sorted());
+        process(db, &i, &[signer])
+    }
+
+    pub fn close_withdrawal(&self, db: &mut Db, m: &MarketKeys, owner: Pubkey, nonce: [u8; 32], signer: Pubkey) -> std::result::Result<(), TxError> {
+        let wd = self.withdrawal_pda(&owner, &nonce);
+        let accounts = gmsol_store::accounts::CloseWithdrawal {
+            executor: signer, store: self.store, store_wallet: self.store_wallet, owner, receiver: owner, market_token: m.market_token, final_long_token: m.long, final_short_token: m.short, withdrawal: wd,
+            market_token_escrow: ata(&wd, &m.market_token), final_long_token_escrow: ata(&wd, &m.long), final_short_token_escrow: ata(&wd, &m.short),
+            market_token_ata: ata(&owner, &m.market_token), final_long_token_ata: ata(&owner, &m.long), final_short_token_ata: ata(&owner, &m.short),
+            system_program: sys(), token_program: spl_token::ID, associated_token_program: spl_associated_token_account::ID, event_authority: self.event_authority, program: self.pid,
+        };
+        process(db, &ix(self.pid, accounts, gmsol_store::instruction::CloseWithdrawal { reason: "mc".into() }), &[signer])
+    }
+}
+
+/// Self-test of the world: one full deposit and withdrawal lifecycle through real instructions.
+pub fn selftest() -> std::result::Result<(), String> {
+    let (mut db, w) = build();
+    let n = [1u8; 32];
+    let m = w.m1.clone();
+    w.create_deposit(&mut db, &m, w.user, n, 1_000_000, 12_000_000, 0, w.user).map_err(|e| format!("create_deposit: {e:?}"))?;
+    if w.execute_deposit(&mut db, &m, w.user, n, w.stranger, false).is_ok() {
+        return Err("a stranger executed a deposit".into());
+    }
+    w.execute_deposit(&mut db, &m, w.user, n, w.keeper, false).map_err(|e| format!("execute_deposit: {e:?}"))?;
+    w.close_deposit(&mut db, &m, w.user, n, w.keeper).map_err(|e| format!("close_deposit: {e:?}"))?;
+    let gm = token_amount(&db, &ata(&w.user, &m.market_token));
+    if gm == 0 {
+        return Err("no market tokens minted".into());
+    }
+    w.create_withdrawal(&mut db, &m, w.user, n, gm / 2, 0, 0, w.user).map_err(|e| format!("create_withdrawal: {e:?}"))?;
+    w.execute_withdrawal(&mut db, &m, w.user, n, w.keeper, false).map_err(|e| format!("execute_withdrawal: {e:?}"))?;
+    w.close_withdrawal(&mut db, &m, w.user, n, w.keeper).map_err(|e| format!("close_withdrawal: {e:?}"))?;
+    if token_amount(&db, &ata(&w.user, &m.market_token)) != gm - gm / 2 {
+        return Err("withdrawal did not burn the market tokens".into());
+    }
+    Ok(())
+}
+
+pub fn c32_settlement(_rep: &mut mc_core::Report, _cli: &mc_core::Cli) {}
